@@ -5,7 +5,7 @@
    `tflist_nonempty_flag` is proved in the corrected form explained at the theorem. *)
 From Coq Require Import NArith List Bool.
 From MiV Require Import Model.TFree Proofs.TFreeBase Proofs.TFreeInv Proofs.TFreeStep5 Proofs.TFreeProofs Proofs.TFreeSolo
-  Proofs.TFreeT.
+  Proofs.TFreeT Proofs.TFreeFull.
 Import ListNotations.
 Local Open Scope N_scope.
 
@@ -59,6 +59,29 @@ Theorem unfull_on_delayed : forall s, reachable s -> exists c, s = Ok c /\
 Proof. exact unfull_on_delayed_R. Qed.
 Print Assumptions unfull_on_delayed.
 
+(* the full-queue protocol cannot strand a page (what keeps a producer/consumer workload bounded):
+   (1) whenever all threads are between calls, a page with a non-empty thread-free list (not being abandoned) has one of
+       its blocks on the delayed-free list of its own, live heap, i.e. the owner's next drain of that heap meets the page;
+   (2) the owner's next _mi_heap_delayed_free_all of that heap, run alone, terminates and leaves every page that had a
+       remotely freed block (on its thread-free list or on the heap's delayed list) out of the full queue - back in its
+       size queue, or freed because it became empty - with its thread-free list collected and the delayed list empty.
+   (`pg_full` is not a hypothesis of (2): the conclusion holds for such a page whether or not it was in the full queue.) *)
+Theorem remote_free_noticed : forall s, reachable s -> exists c, s = Ok c /\
+  (quiescent c = true -> forall p h, pg_heap (getp c p) = Some h -> pg_tf (getp c p) <> [] -> pg_flag (getp c p) <> NeverD ->
+   exists b, fst b = p /\ In b (hp_del (geth c h)) /\ hp_alive (geth c h) = true).
+Proof. exact remote_free_noticed_P. Qed.
+Print Assumptions remote_free_noticed.
+
+Theorem full_page_unfulled_by_drain : forall s, reachable s -> exists c, s = Ok c /\
+  (quiescent c = true -> forall t h p, hown (geth c h) t = true ->
+   pg_heap (getp c p) = Some h -> pg_flag (getp c p) <> NeverD ->
+   (pg_tf (getp c p) <> [] \/ exists b, fst b = p /\ In b (hp_del (geth c h))) ->
+   exists c1 n c', cstep c t (COp (OpDelayedAll h)) = ROk c1 None /\ solo n c1 t = Some c'
+                   /\ reachable (Ok c') /\ quiescent c' = true
+                   /\ pg_full (getp c' p) = false /\ pg_tf (getp c' p) = [] /\ hp_del (geth c' h) = []).
+Proof. exact full_page_unfulled_by_drain_P. Qed.
+Print Assumptions full_page_unfulled_by_drain.
+
 (* ---- Examples ---- *)
 Definition b00 : bid := (0, 0).
 Definition b01 : bid := (0, 1).
@@ -98,4 +121,19 @@ Proof. vm_compute. reflexivity. Qed.
 Example ex_all_freed :
   after_collect (sched_c08 ++ [(0, COp (OpFree b02 false))]) 0 0 (fun c c' =>
     isnil (pages_of c' 0 0) && negb (pg_alive (getp c' 0)) && inv_b c') = true.
+Proof. vm_compute. reflexivity. Qed.
+
+(* the owner's next drain alone (no forced collect): the full page with a remotely freed block on its thread list and one
+   on the heap's delayed list is back in its size queue, both blocks are available to the owner again *)
+Definition after_drain (sched : list (N * choice)) (t h : N) (f : cfg -> cfg -> bool) : bool :=
+  after sched (fun c => match cstep c t (COp (OpDelayedAll h)) with
+                        | ROk c1 None => match solo 200 c1 t with Some c' => f c c' | None => false end
+                        | _ => false end).
+Example ex_unfulled_by_drain :
+  after_drain sched_c08 0 0 (fun c c' =>
+    quiescent c && pg_full (getp c 0) && negb (isnil (pg_tf (getp c 0))) && negb (flag_eqb (pg_flag (getp c 0)) NeverD)
+    && oN_eqb (pg_heap (getp c 0)) (Some 0) && hown (geth c 0) 0
+    && negb (pg_full (getp c' 0)) && isnil (pg_tf (getp c' 0)) && isnil (hp_del (geth c' 0)) && pg_alive (getp c' 0)
+    && (pg_used (getp c' 0) =? 1) && beq_bl (pg_lfree (getp c' 0) ++ pg_free (getp c' 0)) [b00; b01]
+    && quiescent c' && inv_b c') = true.
 Proof. vm_compute. reflexivity. Qed.
